@@ -36,7 +36,7 @@ CW = 'chainables.courier_worker'
 
 
 def run(ctx: Ctx):
-  for r in (r1, r2, r3, r4, r5, r6, r7, r10, r11):
+  for r in (r1, r2, r3, r4, r5, r6, r7, r10, r11, r13):
     ctx.guard(r)
   from mlmverif.props import c03
   ctx.include('R-C16-9', '"delivers exactly one final aggregate result": the'
@@ -521,11 +521,74 @@ def r11(ctx: Ctx):
   ctx.floor(rule, 2, n)
 
 
+def r13(ctx: Ctx):
+  rule = 'R-C16-13'
+  ctx.rule(rule, '"the same aggregate result": the runner the master merges and finalises with'
+           ' (make(mode=AGGREGATE)) covers EVERY aggregating transform of the chain: in'
+           ' TreeTransform.make the flattened transform list is cut down to one element'
+           ' only under a test of `recursive` alone — never under a condition the aggregate'
+           ' mode satisfies — and the aggregate mode only filters by `agg_fns`. A runner'
+           ' built from the last transform skips the states of the earlier aggregating'
+           ' stages: their results drop out of the one final result without an error')
+  fi = ctx.repo.func(TR, 'TreeTransform.make')
+  pm = parent_map(fi.node)
+  tv = None
+  for x in walk_no_nested(fi.node):
+    if isinstance(x, ast.Assign) and isinstance(x.value, ast.Call) and unparse(x.value.func).endswith(
+        'flatten_transform') and isinstance(x.targets[0], ast.Name):
+      tv = x.targets[0].id
+  if tv is None:
+    raise AnalysisError(f'{rule}: TreeTransform.make no longer flattens the transform chain into a local')
+  # names that carry the mode
+  mode_names = {'mode'} | {t.id for x in walk_no_nested(fi.node) if isinstance(x, ast.Assign)
+                           and any(isinstance(y, ast.Name) and y.id == 'mode' for y in ast.walk(x.value))
+                           for t in x.targets if isinstance(t, ast.Name)}
+  n = 0
+  for x in walk_no_nested(fi.node):
+    if not (isinstance(x, ast.Assign) and any(isinstance(t, ast.Name) and t.id == tv for t in x.targets)):
+      continue
+    v = x.value
+    truncating = any(isinstance(y, ast.Subscript) and isinstance(y.value, ast.Name) and y.value.id == tv
+                     for y in ast.walk(v))
+    if not truncating:
+      continue
+    n += 1
+    tests = []
+    q = pm.get(x)
+    while q is not None and q is not fi.node:
+      if isinstance(q, ast.If):
+        tests.append(q.test)
+      q = pm.get(q)
+    mentions_mode = any(isinstance(y, ast.Name) and y.id in mode_names for t in tests for y in ast.walk(t))
+    if not tests or mentions_mode:
+      ctx.fail(rule, fi, 'TreeTransform.make: the aggregate-mode runner keeps every aggregating transform',
+               f'`{unparse(x)[:60]}` cuts the transform chain down'
+               + (' unconditionally' if not tests else f' under `{unparse(tests[0])[:50]}`, which the aggregate mode satisfies')
+               + ': the runner used to merge and finalise the shard states then knows only the last'
+               ' transform, and the aggregates of every earlier aggregating stage are missing from the'
+               ' final result', node=x)
+    else:
+      ctx.ok(rule, fi, f'chain cut to one transform only under `{unparse(tests[0])[:40]}`', x)
+  filt = [x for x in walk_no_nested(fi.node) if isinstance(x, ast.Assign) and isinstance(x.value, ast.ListComp)
+          and any(isinstance(t, ast.Name) and t.id == tv for t in x.targets)
+          and any('agg_fns' in unparse(i_) for g_ in x.value.generators for i_ in g_.ifs)]
+  if filt:
+    n += 1
+    ctx.ok(rule, fi, 'aggregate mode filters the chain by agg_fns', filt[0])
+  ctx.floor(rule, 2, n)
+
+
 from mlmverif.selfcheck import B, OK  # noqa: E402
 
 _T = 'chainables/transform.py'
 _O = 'chainables/orchestrate.py'
 VARIANTS = [
+    B('aggregate-runner-from-last-transform-only', _T,
+      '    if not recursive:\n      transforms = [transforms[-1]]\n    agg_only = mode == RunnerMode.AGGREGATE\n    if agg_only:\n      transforms = [t for t in transforms if t.agg_fns]',
+      '    agg_only = mode == RunnerMode.AGGREGATE\n    if not recursive or agg_only:\n      transforms = [transforms[-1]]', 'R-C16-13'),
+    OK('aggregate-filter-before-recursive-cut', _T,
+       '    if not recursive:\n      transforms = [transforms[-1]]\n    agg_only = mode == RunnerMode.AGGREGATE\n    if agg_only:\n      transforms = [t for t in transforms if t.agg_fns]',
+       '    agg_only = mode == RunnerMode.AGGREGATE\n    if not recursive:\n      transforms = transforms[-1:]\n    if agg_only:\n      transforms = [t for t in transforms if t.agg_fns]'),
     B('remote-start-awaited', 'utils/courier_utils.py',
       '    _ = self.call(\n        lazy_output_q.enqueue_from_iterator(lazy_iterable),\n        return_exception=True,\n        return_immediately=True,\n    )',
       '    state = self.call(\n        lazy_output_q.enqueue_from_iterator(lazy_iterable),\n        return_exception=True,\n        return_immediately=True,\n    )\n    await asyncio.wrap_future(state)',
